@@ -156,6 +156,7 @@ type SSEServer struct {
 	logger               Logger                                                     // Logger for this server.
 	requestID            atomic.Int64                                               // Request ID counter for generating unique request IDs.
 	responses            map[uint64]interface{}                                     // Map for storing response channels.
+	responseSessions     map[uint64]string                                          // Session each pending request was sent to (guarded by responsesMu).
 	responsesMu          sync.RWMutex                                               // Mutex for responses map.
 	notificationHandlers map[string]ServerNotificationHandler                       // Map of notification handlers by method name.
 	notificationMu       sync.RWMutex                                               // Mutex for notification handlers map.
@@ -204,6 +205,7 @@ func NewSSEServer(name, version string, opts ...SSEOption) *SSEServer {
 		keepAliveInterval:    30 * time.Second,
 		logger:               GetDefaultLogger(),
 		responses:            make(map[uint64]interface{}),
+		responseSessions:     make(map[uint64]string),
 		notificationHandlers: make(map[string]ServerNotificationHandler),
 	}
 
@@ -754,6 +756,10 @@ func (s *SSEServer) handleResponseMessage(ctx context.Context, rawMessage json.R
 	// Get the response channel.
 	s.responsesMu.RLock()
 	responseChanInterface, exists := s.responses[requestIDUint]
+	if exists && (session == nil || s.responseSessions[requestIDUint] != session.sessionID) {
+		// The answer accepted for a server-issued request is the one posted by the session it was sent to.
+		exists = false
+	}
 	s.responsesMu.RUnlock()
 
 	if !exists {
@@ -886,7 +892,7 @@ func (s *SSEServer) processRequestAsync(ctx context.Context, request *JSONRPCReq
 
 	// Check if this is a response to our roots/list request.
 	if s.isRootsListResponse(request) {
-		s.handleRootsListResponse(request)
+		s.handleRootsListResponse(request, session)
 		return
 	}
 
@@ -948,7 +954,7 @@ func (s *SSEServer) isRootsListResponse(request *JSONRPCRequest) bool {
 }
 
 // handleRootsListResponse processes responses from clients to our roots/list requests.
-func (s *SSEServer) handleRootsListResponse(request *JSONRPCRequest) {
+func (s *SSEServer) handleRootsListResponse(request *JSONRPCRequest, session *sseSession) {
 	var responseID interface{} = request.ID
 	var responseResult json.RawMessage
 	var responseError json.RawMessage
@@ -993,6 +999,10 @@ func (s *SSEServer) handleRootsListResponse(request *JSONRPCRequest) {
 	// Get the response channel.
 	s.responsesMu.RLock()
 	responseChanInterface, exists := s.responses[requestIDUint]
+	if exists && (session == nil || s.responseSessions[requestIDUint] != session.sessionID) {
+		// The answer accepted for a server-issued request is the one posted by the session it was sent to.
+		exists = false
+	}
 	s.responsesMu.RUnlock()
 
 	if !exists {
@@ -1374,12 +1384,17 @@ func (s *SSEServer) SendRequest(ctx context.Context, sessionID string, request *
 		s.responses = make(map[uint64]interface{})
 	}
 	s.responses[requestIDUint] = resultChan
+	if s.responseSessions == nil {
+		s.responseSessions = make(map[uint64]string)
+	}
+	s.responseSessions[requestIDUint] = sessionID
 	s.responsesMu.Unlock()
 
 	// Clean up the response channel when done
 	defer func() {
 		s.responsesMu.Lock()
 		delete(s.responses, requestIDUint)
+		delete(s.responseSessions, requestIDUint)
 		s.responsesMu.Unlock()
 	}()
 
